@@ -38,4 +38,28 @@ def cmd_sfs_greedy(cmd):
     return {"blocks": out}
 
 
-COMMANDS = {"sfs_greedy": cmd_sfs_greedy}
+def cmd_opt_sfs(cmd):
+    """the -sfs input mode: gasol_asm.optimize_block on a dictionary of specifications that may have been written by another run
+    (other options); per specification the original block as the tool rebuilds it, the sequence it chose and its own prices"""
+    from sfs_generator.asm_block import AsmBlock
+    gasol_asm, params = W["gasol_asm"], W["params"]
+    out = []
+    try:
+        sols = gasol_asm.optimize_block(deepcopy(cmd["sfs"]), params)
+    except BaseException as e:
+        return {"exc": W["exc_info"](e)}
+    for original_block, outcome, _t, optimized_asm, tag, _tout, _b, _rules, ids in sols:
+        ob = AsmBlock('optimized', original_block.block_id, original_block.block_name, original_block.is_init_block)
+        ob.instructions = optimized_asm
+        r = {"name": original_block.block_name, "outcome": str(outcome), "ids": list(ids) if ids is not None else None,
+             "orig": W["proj_block"](original_block), "opt": W["proj_block"](ob), "plain": original_block.to_plain()}
+        try:
+            r["costs"] = {"gas": [original_block.gas_spent, ob.gas_spent], "size": [original_block.bytes_required, ob.bytes_required],
+                          "length": [original_block.length, ob.length]}
+        except BaseException as e:
+            r["exc"] = W["exc_info"](e)
+        out.append(r)
+    return {"blocks": out}
+
+
+COMMANDS = {"sfs_greedy": cmd_sfs_greedy, "opt_sfs": cmd_opt_sfs}
